@@ -132,6 +132,16 @@ def bounded_enumeration(reg, tier, seed):
         n_el = int(fmt[1])
         corner = [0, 1, top // 2, top // 2 + 1, top - 1, top]
         tuples = list(_it.product(corner, repeat=n_el)) + [tuple(rng.randint(0, top) for _ in range(n_el)) for _ in range(300 if tier == "quick" else 20000)]
+        if n_el == 3:
+            # triples whose decoded vector part lies just inside / just outside the unit sphere (where W is rebuilt as ~0)
+            import math as _m
+            for _k in range(200 if tier == "quick" else 5000):
+                d_ = [rng.uniform(-1, 1) for _ in range(3)]
+                nrm = _m.sqrt(sum(x * x for x in d_)) or 1.0
+                rad = _m.sqrt(1.0 + rng.choice([-1e-3, -1e-5, 0.0, 1e-5, 1e-4, 5e-4, 9e-4, 2e-3]))
+                lo_, hi_ = (-1.0, 1.0) if "(-1,1)" in qname else (-5.0, 5.0)
+                tuples.append(tuple(max(0, min(top, round((x / nrm * rad - lo_) / (hi_ - lo_) * top))) for x in d_))
+            tuples.append((13840, 13840, 13840))
         seen.add(qname)
         for raw in tuples:
             evals += 1
